@@ -203,6 +203,7 @@ def generate(unit, repo, vacuity=False):
             text, r = A.n6_enumerate(text); norms += r
             if spec.n4:
                 text, r = A.n4_unwrap_or_else(text); norms += r
+                text, r = A.n4b_ok_and_then(text); norms += r
             text, r = A.regex_rules(text, unit.global_rules + spec.rules); norms += r
             text, hoisted, r = A.n14_hoist(text); norms += r
             try:
